@@ -16,6 +16,8 @@ import (
 	"testing"
 	"time"
 
+	"go.temporal.io/server/api/adminservice/v1"
+	replicationv1 "go.temporal.io/server/api/replication/v1"
 	"go.temporal.io/server/client/history"
 	"google.golang.org/grpc/metadata"
 	"pgregory.net/rapid"
@@ -254,6 +256,18 @@ func c20Run(c c20Case) (err error, harness error) {
 			}
 		} else if !c20LockFree(w) {
 			return fmt.Errorf("after %s (other streams still open) the stream observer's lock is still held", what), nil
+		} else {
+			// the streams that are still open go on working: a message from their source passes through the proxy (the
+			// bookkeeping another stream has just removed must not be theirs)
+			w.mu.Lock()
+			hc := append([]*vfClientStream(nil), w.heldClients...)
+			w.mu.Unlock()
+			for _, cs := range hc {
+				cs.Push(&vfResp{Attributes: &adminservice.StreamWorkflowReplicationMessagesResponse_Messages{Messages: &replicationv1.WorkflowReplicationMessages{ExclusiveHighWatermark: 5}}})
+			}
+			if len(hc) > 0 {
+				time.Sleep(3 * time.Millisecond)
+			}
 		}
 	}
 	if len(held) > 0 {
